@@ -11,7 +11,7 @@ import est_common as ec
 
 PROP_FILE = 'theories/Properties/C10.v'
 MODEL_FILES = ['theories/Base/Rows.v', 'theories/Model/Estimators.v', 'theories/Model/Gate.v', 'theories/Model/Frames.v']
-GEN_GROUPS = []
+GEN_GROUPS = ['gate']
 RULE = ('random mixed/categorical frames with missing values in exposure, covariates and outcome (none / completely at random / '
         'depending on treatment and covariates): every keep-missing-outcome estimator on the frame vs the frame with rows missing '
         'exposure or a covariate deleted; every drop-all estimator vs its complete-case run; the rows actually analysed vs the '
